@@ -1,10 +1,12 @@
 #!/bin/bash
-# Offline setup: parse every spec, build the hooked library and the runtime once.
+# Offline setup: build the hooked library once and parse every spec (parse problems are
+# reported; a check whose spec does not parse fails as BROKEN-CHECK when it runs).
 set -e
 cd "$(dirname "$0")/.."
 mkdir -p build/tlc evidence
-for f in spec/*.tla; do
-  ( cd spec && tla-sany "$(basename "$f")" >/dev/null 2>&1 ) || { echo "SANY failed on $f"; (cd spec && tla-sany "$(basename "$f")" | tail -20); exit 1; }
-done
 tools/build_repo.sh plain >/dev/null
-echo "setup ok"
+bad=0
+for f in spec/*.tla; do
+  ( cd spec && timeout 120 tla-sany "$(basename "$f")" >/dev/null 2>&1 ) || { echo "WARNING: SANY failed on $f"; bad=$((bad+1)); }
+done
+echo "setup ok ($bad specs with parse problems)"
